@@ -139,6 +139,14 @@ def mc(module, cfg=None, workers=None, timeout=1800, name=None, wd=None, constan
     return r
 
 
+def mc_expect_violation(module, cfg, wd, name, timeout=600):
+    """a deliberately defective variant of a model must be REJECTED by TLC (sensitivity of the model); returns True if it was"""
+    r = tlc(module, cfg, os.path.join(wd, "mc_" + name), workers=4, timeout=timeout)
+    bad = "is violated" in r["out"] or "Deadlock reached" in r["out"]
+    log("  MC %-28s defective variant %s by TLC" % (name, "rejected" if bad else "NOT rejected"))
+    return bad
+
+
 def printed(out, tag):
     """lines printed by PrintT(<<tag, "json">>) -> decoded json objects"""
     res = []
